@@ -29,7 +29,7 @@ NUMERIC = {"1.0e-3", "2.5d+0", "3", "1.e5", "4.e-2_k"}
 
 # a small pool: the same exponent / character literal then occurs several times in one expression (inside one bracketed
 # group and again elsewhere), which is what the placeholder mechanism has to keep apart
-SMALL_POOL = ["1.0e-3", "7.e0", "'a b'", "a", "1.0e-3", "2.5d+0"]
+SMALL_POOL = ["1.0e-3", "1.0e-3", "7.e0", "a", "1.0e-3", "'a b'", "'a b'", "2.5d+0"]
 
 
 def concretise(toks, salt, tight, pool=None):
@@ -60,6 +60,12 @@ def concretise(toks, salt, tight, pool=None):
         out.append((sep if prev is not None else "") + s)
         prev = s
     return "".join(out)
+
+
+def operands_of(toks, salt, pool=None):
+    """The operand texts concretise() puts in, in order."""
+    ops = pool or OPERANDS
+    return [squash(ops[(salt + i + i * 5) % len(ops)]) for i, t in enumerate(toks) if t == "x"]
 
 
 OPCLASS = {}
@@ -94,6 +100,35 @@ def shape(node):
     return ["x"]
 
 
+def squash(text):
+    """Operand text modulo blanks and letter case outside character literals."""
+    out = []
+    q = None
+    for ch in text:
+        if q:
+            out.append(ch)
+            if ch == q:
+                q = None
+        elif ch in "'\"":
+            q = ch
+            out.append(ch)
+        elif ch != " ":
+            out.append(ch.lower())
+    return "".join(out)
+
+
+def operands(node):
+    """Operand texts of the real tree, left to right."""
+    from fparser.two import utils as U
+    if isinstance(node, U.BinaryOpBase):
+        return operands(node.items[0]) + operands(node.items[2])
+    if isinstance(node, U.UnaryOpBase):
+        return operands(node.items[1])
+    if type(node).__name__ == "Parenthesis":
+        return operands(node.items[1])
+    return [squash(str(node))]
+
+
 def work(case):
     from .. import fp
     from fparser.two import Fortran2003 as F
@@ -106,6 +141,7 @@ def work(case):
             if mode == "expr":
                 n = F.Expr(text)
                 r["shape"] = shape(n)
+                r["operands"] = operands(n)
                 r["str"] = str(n)
             else:
                 src = "subroutine s\n  r = %s\nend subroutine s\n" % text if mode == "assign" else \
@@ -118,9 +154,11 @@ def work(case):
                     if mode == "assign":
                         a = [n for n in walk(t) if type(n).__name__ == "Assignment_Stmt"][0]
                         r["shape"] = shape(a.items[2])
+                        r["operands"] = operands(a.items[2])
                     else:
                         a = [n for n in walk(t) if type(n).__name__ == "If_Then_Stmt"][0]
                         r["shape"] = shape(a.items[0])
+                        r["operands"] = operands(a.items[0])
         except NoMatchError:
             r["err"] = "nomatch"
         except Exception as e:  # noqa: BLE001
@@ -167,23 +205,33 @@ def run(prop, tier=None, replay=None):
         if not b["ok"]:
             continue
         texts = []
+        exp_ops = []
         for v in range(nvar):
-            txt = concretise(b["toks"], salt=v * 7 + i, tight=(v % 2 == 1), pool=SMALL_POOL if v % 3 == 2 else None)
+            pool = SMALL_POOL if v % 3 == 2 else None
+            txt = concretise(b["toks"], salt=v * 7 + i, tight=(v % 2 == 1), pool=pool)
+            eo = operands_of(b["toks"], v * 7 + i, pool)
             texts.append((txt, "expr"))
-            if v % 3 == 0:
+            exp_ops.append(eo)
+            if v % 3 == 0 or pool:
                 texts.append((txt, "assign"))
+                exp_ops.append(eo)
             if v % 6 == 1 and len(b["toks"]) > 1:
                 texts.append((txt, "if"))
-        cases.append({"id": i, "toks": b["toks"], "t": b["t"], "texts": texts})
+                exp_ops.append(eo)
+        cases.append({"id": i, "toks": b["toks"], "t": b["t"], "texts": texts, "exp_ops": exp_ops})
     results = pmap(work, [{"id": c["id"], "texts": c["texts"]} for c in cases], timeout=300)
     chk.phase("replay")
     for c, r in zip(cases, results):
         if "__timeout__" in r or "__died__" in r:
             chk.violation({"clause": "no-result"}, "C03: no result for %s" % c["texts"][0][0], {"beh": {"toks": c["toks"], "ok": True, "t": c["t"]}})
             continue
-        for x in r["res"]:
+        for xi, x in enumerate(r["res"]):
             chk.count()
             chk.cov["traces_validated_against_impl"] += 1
+            if x.get("shape") == c["t"] and "exp_ops" in c and x.get("operands") != c["exp_ops"][xi]:
+                chk.violation({"clause": "operands-differ", "mode": x["mode"]},
+                              "C03: the operands of %s come out as %s (%s)" % (x["text"], x.get("operands"), x["mode"]),
+                              {"beh": {"toks": c["toks"], "ok": True, "t": c["t"]}, "text": x["text"], "mode": x["mode"]})
             if x.get("shape") != c["t"]:
                 sig = {"clause": "rejected" if "err" in x else "grouping-differs", "mode": x["mode"],
                        "ops": "-".join(sorted(set(t for t in c["toks"] if t not in ("x", "(", ")"))))[:60]}
